@@ -41,7 +41,7 @@ def main():
         demo_src = open(demo).read()
         pkg = re.search(r"^package\s+(\w+)", demo_src, re.M).group(1)
         pkgdir = {"tally": ".", "tally_test": ".", "m3": "m3", "prometheus": "prometheus", "multi": "multi", "statsd": "statsd",
-                  "thriftudp": "m3/thriftudp", "instrument": "instrument", "main": None}.get(pkg, ".")
+                  "thriftudp": "m3/thriftudp", "v2": "m3/thrift/v2", "customtransport": "m3/customtransports", "cache": "internal/cache", "identity": "internal/identity", "instrument": "instrument", "main": None}.get(pkg, ".")
         tests = re.findall(r"^func (Test\w+)\(", demo_src, re.M)
         run_re = "^(" + "|".join(tests) + ")$" if tests else "."
         demo_dst = os.path.join(wt, pkgdir or ".", "zz_seeded_demo_test.go")
